@@ -66,6 +66,7 @@ class ProgressBar(object):
         self._max_seconds_between_redraws = 1
         self._write_count = 0
         self._displayed_step = None
+        self._displayed_max = None
 
         if min_seconds_between_redraws > 0:
             self.redraw_freq = None
@@ -229,6 +230,7 @@ class ProgressBar(object):
             self._step == self._max
             and not self._should_overwrite
             and self._displayed_step == self._step
+            and self._displayed_max == self._max
         ):
             return
 
@@ -356,6 +358,7 @@ class ProgressBar(object):
         self._last_write_time = time.time()
         self._write_count += 1
         self._displayed_step = self._step
+        self._displayed_max = self._max
 
     def _determine_best_format(self):
         verbosity = self._io.verbosity
